@@ -71,7 +71,10 @@ ob("C07", "F28.return_removed", {"c0": CP, "c1": CP, "c2": CP}, T=200, tier="wit
 
 
 # K2: argument annotations ----------------------------------------------------------------------------------------------
-def args_annotated(shape, d0, d1):
+RETS = ("", " -> int", " -> Tuple[()]", ' -> "A[int, G(0)]"', " -> Optional[List[str]]", " -> Callable[[int], Tuple[int, ...]]")
+
+
+def args_annotated(shape, d0, d1, ret=0):
     """annotations are added to the parameters; defaults, *args, keyword-only marker, **kwargs must survive (ASTs parsed from the very header text)"""
     from cdd.shared.ast_cst_utils import maybe_replace_function_args
 
@@ -87,12 +90,16 @@ def args_annotated(shape, d0, d1):
     for k in (1, 2, 3, 4):
         if shape == k:
             cur_sig, new_sig = sigs[k]
-    before = "\ndef f(" + cur_sig + "):"
+    rt = RETS[0]
+    for k in range(1, len(RETS)):
+        if ret == k:
+            rt = RETS[k]
+    before = "\ndef f(" + cur_sig + ")" + rt + ":"
     cst = [_hdr(before)]
-    cur, new = _fn("def f(%s): pass" % cur_sig), _fn("def f(%s): pass" % new_sig)
+    cur, new = _fn("def f(%s)%s: pass" % (cur_sig, rt)), _fn("def f(%s)%s: pass" % (new_sig, rt))
     maybe_replace_function_args(new, cur, 0, cst)
     after = cst[0].value
-    if not after.startswith("\ndef f(") or not after.endswith("):"):
+    if not after.startswith("\ndef f(") or not after.endswith(")" + rt + ":"):
         return "text outside the argument list changed: %r" % after
     try:
         got = _fn(after.strip() + " pass")
@@ -116,6 +123,8 @@ def _strip_ann(fn):
     return fn
 
 
+ob("C07", "K2.args_annotated.ret", {"shape": R(0, 4), "d0": R(49, 49), "d1": R(48, 57), "ret": R(1, len(RETS) - 1)}, T=600, funcs=FUNCS[1:2],
+   bound="as K2.args_annotated with a return annotation already in the header, one of %r (brackets and parentheses after the argument list)" % (RETS[1:],))(args_annotated)
 ob("C07", "K2.args_annotated", {"shape": R(0, 4), "d0": R(49, 57), "d1": R(48, 57)}, T=400, funcs=FUNCS[1:2],
    bound="headers 'def f(a, b=DD)', 'def f(a, *args)', 'def f(a, *, k=DD)', 'def f(a, **kwargs)', 'def f(a, b=DD, *args, c=3, **kwargs)' with DD = ANY two digits "
          "(realised by ast.parse: solver-enumerated); annotations are added: the signature with annotations erased is unchanged")(args_annotated)
@@ -325,6 +334,108 @@ class K(object):
 ''')
 
 
+FIXTURE2 = ('''"""Module doc."""
+import functools
+from typing import Tuple, Optional, List
+
+
+@functools.lru_cache(maxsize=None)
+def cached(n, scale=2.5) -> Tuple[()]:
+    """
+    Cached doc.
+
+    :param n: the n
+    :type n: ```int```
+
+    :param scale: the scale
+    :type scale: ```float```
+
+    :return: nothing
+    :rtype: ```Tuple[()]```
+    """
+    return ()
+
+
+def nothing(count, label="x", *rest, sep=", ", **kw) -> Tuple[()]:
+    """
+    Nothing doc.
+
+    :param count: the count
+    :type count: ```int```
+
+    :param label: the label
+    :type label: ```str```
+
+    :return: nothing at all
+    :rtype: ```Tuple[()]```
+    """
+    return ()
+
+
+async def fetch(url, timeout=3, *, retries=2):
+    """
+    Fetch doc.
+
+    :param url: the url
+    :type url: ```str```
+
+    :param timeout: the timeout
+    :type timeout: ```int```
+
+    :param retries: the retries
+    :type retries: ```int```
+    """
+    return url
+
+
+def multi(
+    first,
+    second="s",
+    *rest,
+    flag=False
+):
+    """
+    Multi doc.
+
+    :param first: the first
+    :type first: ```int```
+
+    :param second: the second
+    :type second: ```str```
+
+    :param flag: the flag
+    :type flag: ```bool```
+    """
+    x = first  # trailing comment
+    return x
+
+
+class Outer(Base if False else object):
+    """
+    Outer doc.
+    """
+
+    class Inner:
+        """Inner doc."""
+
+        def m(self, q: Optional[List[str]] = None) -> Optional[List[str]]:
+            """
+            M doc.
+
+            :param q: the q
+            """
+            return q
+''')
+FIXTURES = (FIXTURE, FIXTURE2)
+
+
+def _comments(text):
+    import io
+    import tokenize
+
+    return [t.string for t in tokenize.generate_tokens(io.StringIO(text).readline) if t.type == tokenize.COMMENT]
+
+
 def _erase(mod):
     import copy
 
@@ -347,7 +458,7 @@ def _erase(mod):
     return ast.dump(mod)
 
 
-def program_unchanged(style, type_annotations, no_word_wrap):
+def program_unchanged(style, type_annotations, no_word_wrap, fx=0):
     import contextlib
     import io
 
@@ -357,10 +468,11 @@ def program_unchanged(style, type_annotations, no_word_wrap):
     for k in (1, 2):
         if style == k:
             fmt = STYLES[k]
+    fixture = FIXTURES[1] if fx == 1 else FIXTURES[0]
     _N[0] += 1
     filename = os.path.join(_ROOT, "p%d.py" % _N[0])
     with open(filename, "wt") as f:
-        f.write(FIXTURE)
+        f.write(fixture)
     err = None
     try:
         with contextlib.redirect_stdout(io.StringIO()), contextlib.redirect_stderr(io.StringIO()):
@@ -373,17 +485,16 @@ def program_unchanged(style, type_annotations, no_word_wrap):
     finally:
         os.remove(filename)
     if err is not None:
-        return "" if after == FIXTURE else "failed conversion changed the file"
+        return "" if after == fixture else "failed conversion changed the file"
     try:
         mod = ast.parse(after)
     except SyntaxError as e:
         return "the converted file is not valid Python: %s" % e
-    if _erase(mod) != _erase(ast.parse(FIXTURE)):
+    if _erase(mod) != _erase(ast.parse(fixture)):
         heads = [l for l in after.splitlines() if l.lstrip().startswith(("def ", "class ", "@"))]
         return "the program changed (AST differs once docstrings and annotations are erased); headers now: %r" % (heads,)
-    for c in ("# module comment", "# inner comment"):
-        if c not in after:
-            return "comment %r lost" % c
+    if _comments(after) != _comments(fixture):
+        return "comments changed: %r -> %r" % (_comments(fixture), _comments(after))
     return ""
 
 
@@ -396,3 +507,8 @@ ob("C07", "K6.program_unchanged", {"style": R(0, 2), "type_annotations": BOOL, "
    bound="the whole doctrans() on a scratch fixture module (function with defaults/*args/kw-only/**kwargs and a trailing comment, function with annotated keyword-only "
          "parameters, class with attribute, decorated method with a nested function) x target style x --type-annotations (solver-enumerated; word-wrap off here, on in the thorough twin): valid Python, "
          "AST identical once docstrings and annotations are erased, comments kept")(program_unchanged)
+ob("C07", "K6.program_unchanged.fx2", {"style": R(0, 2), "type_annotations": BOOL, "no_word_wrap": BOOL, "fx": R(1, 1)}, T=1800, tpath=200,
+   funcs=["cdd.compound.doctrans.doctrans"],
+   bound="the whole doctrans() on a second scratch fixture (decorated and undecorated functions whose return annotation contains parentheses, async function with keyword-only "
+         "parameters, multi-line header, trailing comment, class with computed base, nested class with an annotated method) x target style x --type-annotations x word-wrap: "
+         "valid Python, AST identical once docstrings and annotations are erased, same comment tokens in the same order")(program_unchanged)
